@@ -119,7 +119,7 @@ class Hist:
                 t = S.int("t" + nm, t_lo, t_hi)
             self.t.append(t)
             self.off.append(off)
-            self.a.append(S.int("a" + nm, 1, amount_max))
+            self.a.append(S.int("a" + nm, 0 if s.get("a0") else 1, amount_max))
             self.p.append(S.int("p" + nm, price_min, price_max))
             if s.get("wf") and s["table"] == "IN":
                 self.w[i] = S.int("w" + nm, 1, 10**13)
